@@ -160,10 +160,21 @@ def run_include(ctx, U, s, ext, cfg, hostile):
         os.chdir(U)
         cart_arg = cart if open_as == 'absolute' else os.path.relpath(cart, U)
     ctx.feature('cart_named_' + open_as)
+    via_stream = cfg == 'plain' and (len(s) + (1 if hostile else 0)) % 5 == 0
+    if via_stream:
+        # the library API on an open stream, without a file name: whatever it does with include lines, it has no business outside
+        # the cart's directory (which is also the working directory here)
+        os.chdir(cartdir)
+        ctx.feature('cart_loaded_from_stream_without_name')
     try:
         with fsmon.Watch(U, roots, hostile) as w:
             try:
-                g = p8file.from_file(cart_arg)
+                if via_stream:
+                    from pico8.game.formatter.p8 import P8Formatter
+                    with open(cart, 'rb') as fh:
+                        g = P8Formatter.from_file(fh)
+                else:
+                    g = p8file.from_file(cart_arg)
                 loaded = b''.join(g.lua.to_lines())
             except BaseException as e:
                 err = e
@@ -521,7 +532,7 @@ def gates(m, tier):
     N = 3 if tier == 'quick' else 4
     if f.get('strings_enumerated', 0) != len(strings(N)):
         missed.append('strings enumerated %d of %d' % (f.get('strings_enumerated', 0), len(strings(N))))
-    for k in ('cart_under_cwd_relative_carts_folder', 'strings_with_tilde', 'nested_require_from_subdirectory', 'main_named_bare', 'main_named_relative', 'cart_named_bare', 'cart_named_relative', 'links_done', 'strings_through_directory_links', 'strings_with_backslash_separators', 'strings_with_undecodable_bytes', 'sequences_done', 'failed_load_before_case', 'failed_build_before_case', 'include_cfg:subdir', 'absolute_paths_done', 'hostile', 'real_fs', 'include_cfg:plain', 'include_cfg:carts', 'include_cfg:carts2', 'include_rejected',
+    for k in ('cart_loaded_from_stream_without_name', 'cart_under_cwd_relative_carts_folder', 'strings_with_tilde', 'nested_require_from_subdirectory', 'main_named_bare', 'main_named_relative', 'cart_named_bare', 'cart_named_relative', 'links_done', 'strings_through_directory_links', 'strings_with_backslash_separators', 'strings_with_undecodable_bytes', 'sequences_done', 'failed_load_before_case', 'failed_build_before_case', 'include_cfg:subdir', 'absolute_paths_done', 'hostile', 'real_fs', 'include_cfg:plain', 'include_cfg:carts', 'include_cfg:carts2', 'include_rejected',
               'include_loaded', 'require_rejected', 'require_built') + tuple('load_path:' + l for l in LOAD_PATHS):
         if f.get(k, 0) < 1:
             missed.append('%s never seen' % k)
